@@ -149,6 +149,11 @@ type (
 		chReadEvent  chan struct{} // notify Read() can be called without blocking
 		chWriteEvent chan struct{} // notify Write() can be called without blocking
 
+		// closed and replaced whenever the corresponding deadline changes, so that
+		// every blocked Read()/Write() re-arms its timer, however many there are
+		chReadDeadline  atomic.Value // chan struct{}
+		chWriteDeadline atomic.Value // chan struct{}
+
 		// socket error handling
 		socketReadError      atomic.Value
 		socketWriteError     atomic.Value
@@ -194,6 +199,8 @@ func newUDPSession(conv uint32, dataShards, parityShards int, l *Listener, conn 
 	sess.die = make(chan struct{})
 	sess.chReadEvent = make(chan struct{}, 1)
 	sess.chWriteEvent = make(chan struct{}, 1)
+	sess.chReadDeadline.Store(make(chan struct{}))
+	sess.chWriteDeadline.Store(make(chan struct{}))
 	sess.chSocketReadError = make(chan struct{})
 	sess.chSocketWriteError = make(chan struct{})
 	sess.chPostProcessing = make(chan sendRequest, devBacklog)
@@ -275,8 +282,12 @@ func newUDPSession(conv uint32, dataShards, parityShards int, l *Listener, conn 
 func (s *UDPSession) Read(b []byte) (n int, err error) {
 	var timeout *time.Timer
 	var c <-chan time.Time
+	var deadlineChanged chan struct{}
 
 RESET_TIMER:
+	// load the change channel before the deadline: a change in between wakes us up again
+	deadlineChanged = s.chReadDeadline.Load().(chan struct{})
+
 	// deadline for current reading operation
 	if trd, ok := s.rd.Load().(time.Time); ok && !trd.IsZero() {
 		if timeout == nil {
@@ -287,6 +298,7 @@ RESET_TIMER:
 			// Pre-Go 1.23: Reset does not drain the channel;
 			// callers must drain at the goto-site before arriving here.
 			timeout.Reset(time.Until(trd))
+			c = timeout.C // may have been disabled by a cleared deadline
 		}
 	} else if timeout != nil {
 		timeout.Stop()
@@ -311,7 +323,7 @@ RESET_TIMER:
 			// from kcp.recv() to 'b', like 'DMA'.
 			if len(b) >= size {
 				s.kcp.Recv(b)
-				s.mu.Unlock()
+					s.mu.Unlock()
 				atomic.AddUint64(&DefaultSnmp.BytesReceived, uint64(size))
 				return size, nil
 			}
@@ -341,15 +353,14 @@ RESET_TIMER:
 		// next data packet arrives.
 		select {
 		case <-s.chReadEvent:
-			if timeout != nil {
-				if !timeout.Stop() {
-					select {
-					case <-timeout.C:
-					default:
-					}
+		case <-deadlineChanged:
+			if timeout != nil && !timeout.Stop() {
+				select {
+				case <-timeout.C:
+				default:
 				}
-				goto RESET_TIMER
 			}
+			goto RESET_TIMER
 		case <-c:
 			return 0, errors.WithStack(errTimeout)
 		case <-s.chSocketReadError:
@@ -367,8 +378,12 @@ func (s *UDPSession) Write(b []byte) (n int, err error) { return s.WriteBuffers(
 func (s *UDPSession) WriteBuffers(v [][]byte) (n int, err error) {
 	var timeout *time.Timer
 	var c <-chan time.Time
+	var deadlineChanged chan struct{}
 
 RESET_TIMER:
+	// load the change channel before the deadline: a change in between wakes us up again
+	deadlineChanged = s.chWriteDeadline.Load().(chan struct{})
+
 	if twd, ok := s.wd.Load().(time.Time); ok && !twd.IsZero() {
 		if timeout == nil {
 			timeout = time.NewTimer(time.Until(twd))
@@ -378,6 +393,7 @@ RESET_TIMER:
 			// Pre-Go 1.23: Reset does not drain the channel;
 			// callers must drain at the goto-site before arriving here.
 			timeout.Reset(time.Until(twd))
+			c = timeout.C // may have been disabled by a cleared deadline
 		}
 	} else if timeout != nil {
 		timeout.Stop()
@@ -433,15 +449,14 @@ RESET_TIMER:
 		// transmit buffer to become available again.
 		select {
 		case <-s.chWriteEvent:
-			if timeout != nil {
-				if !timeout.Stop() {
-					select {
-					case <-timeout.C:
-					default:
-					}
+		case <-deadlineChanged:
+			if timeout != nil && !timeout.Stop() {
+				select {
+				case <-timeout.C:
+				default:
 				}
-				goto RESET_TIMER
 			}
+			goto RESET_TIMER
 		case <-c:
 			return 0, errors.WithStack(errTimeout)
 		case <-s.chSocketWriteError:
@@ -503,23 +518,29 @@ func (s *UDPSession) RemoteAddr() net.Addr { return s.remote }
 func (s *UDPSession) SetDeadline(t time.Time) error {
 	s.rd.Store(t)
 	s.wd.Store(t)
-	s.notifyReadEvent()
-	s.notifyWriteEvent()
+	notifyDeadlineChange(&s.chReadDeadline)
+	notifyDeadlineChange(&s.chWriteDeadline)
 	return nil
 }
 
 // SetReadDeadline implements the Conn SetReadDeadline method.
 func (s *UDPSession) SetReadDeadline(t time.Time) error {
 	s.rd.Store(t)
-	s.notifyReadEvent()
+	notifyDeadlineChange(&s.chReadDeadline)
 	return nil
 }
 
 // SetWriteDeadline implements the Conn SetWriteDeadline method.
 func (s *UDPSession) SetWriteDeadline(t time.Time) error {
 	s.wd.Store(t)
-	s.notifyWriteEvent()
+	notifyDeadlineChange(&s.chWriteDeadline)
 	return nil
+}
+
+// notifyDeadlineChange wakes every goroutine blocked on the current change
+// channel and installs a fresh one for those that block from now on.
+func notifyDeadlineChange(v *atomic.Value) {
+	close(v.Swap(make(chan struct{})).(chan struct{}))
 }
 
 // SetWriteDelay delays write for bulk transfer until the next update interval
